@@ -491,7 +491,51 @@ func (st *State) runAll() {
 			panic(st.violation("deadlock: main harness thread blocked forever ("+st.blockedSummary()+")", nil))
 		}
 		next := en[0]
-		if len(en) > 1 {
+		if st.eng.cfg.SchedMode == "delay" {
+			// delay-bounded scheduling: a deterministic round-robin scheduler (keep running the
+			// current thread; when it cannot run, the next enabled thread in id order) and at most
+			// Preempt deviations from it per path (a timer firing early is a deviation too)
+			def := en[0]
+			curEnabled := false
+			for _, t := range en {
+				if t == st.cur {
+					curEnabled = true
+				}
+			}
+			if curEnabled {
+				def = st.cur
+			} else {
+				for _, t := range en {
+					if t.id > st.cur.id {
+						def = t
+						break
+					}
+				}
+			}
+			alts := []int64{int64(def.id)}
+			if st.preempts < st.eng.cfg.Preempt || st.eng.cfg.Preempt < 0 {
+				for _, t := range en {
+					if t != def {
+						alts = append(alts, int64(t.id))
+					}
+				}
+				for _, t := range st.armedTimers() {
+					alts = append(alts, int64(-1-t.id))
+				}
+			}
+			id := int(alts[0])
+			if len(alts) > 1 {
+				id = int(st.decide("sched", alts))
+			}
+			if id != def.id {
+				st.preempts++
+			}
+			if id < 0 {
+				st.fire(st.timers[-1-id])
+				continue
+			}
+			next = st.thrs[id]
+		} else if len(en) > 1 {
 			curEnabled := false
 			for _, t := range en {
 				if t == st.cur {
